@@ -336,6 +336,16 @@ Proof.
   repeat split; assumption.
 Qed.
 
+Lemma bd_caps_rel_reads c M g : caps_rel2 c M -> 0 <= g < capsize p -> sb_caps_ok e c ->
+  vm_is_matched g M = Some (is_matched g c) /\
+  forall i len rest, cap_get g c = (i, len) :: rest ->
+    vm_match_index g M = Some i /\ vm_match_length g M = Some len.
+Proof.
+  intros H Hg Hok. split; [exact (bd_matched c M g H Hg)|].
+  intros i len rest Hget. destruct (bd_caps_index_length c M g i len rest H Hg Hok Hget) as (H1 & H2 & _).
+  split; assumption.
+Qed.
+
 (* balanceMatch on a slot whose stack is non-empty: the marked array denotes the popped stack *)
 Lemma bd_caps_rel_balance c M u top rest : caps_rel2 c M -> 0 <= u < capsize p -> cap_get u c = top :: rest ->
   exists x y, let M1 := mc_set u (nth (Z.to_nat u) M [] ++ [x; y]) M in
